@@ -12,6 +12,7 @@ from harness import tablelib as tl
 from harness.common import Run
 from harness.table_engine import edge_class, run_table_property, signature
 from harness.table_driver import rand_op, rand_state, validate
+from harness.vault_engine import run_vault_part
 
 
 def save_reload_histories(run, n, steps):
@@ -88,5 +89,7 @@ def main(tier: str) -> int:
     run.assumptions += ["the independent reader (harness/tablelib.py:project_element) is trusted", "TLC/lxml trusted"]
     budgets = {"walks": (1200, 10), "traces": (400, 14)} if tier == "quick" else {"walks": (20000, 14), "traces": (8000, 16)}
     run_table_property(run, tier, verdict_kinds=("live", "fresh", "exc"), budgets=budgets, parts=("walks", "traces"))
+    # Vault.tla: position map edited in place + item cache; reads through them must be true
+    run_vault_part(run, tier, verdict_kinds=("live",))
     save_reload_histories(run, 40 if tier == "quick" else 1500, 8)
     return run.finish()
